@@ -329,6 +329,9 @@ type WriteFault struct {
 	// Transient: only the call that crosses Offset fails (EINTR, EAGAIN, a quota that frees up again); later
 	// calls succeed. Default: the sink stays broken and every later call fails too.
 	Transient bool `json:"transient,omitempty"`
+	// Full: the failing call takes all its bytes and still returns the error (len(p), err) - a sink that accepted
+	// the data and then failed to flush or sync it (compressing and buffering writers do this)
+	Full bool `json:"full,omitempty"`
 }
 
 // WritePlan is the behaviour of a sink.
@@ -381,6 +384,10 @@ func (w *Writer) Write(p []byte) (n int, err error) {
 			w.dead = e
 		}
 		w.Fired[f.Kind]++
+		if f.Full {
+			w.Buf = append(w.Buf, p...)
+			return len(p), e
+		}
 		if f.Short && f.Offset > off {
 			n = f.Offset - off
 			w.Buf = append(w.Buf, p[:n]...)
